@@ -114,6 +114,14 @@ def beneath_or_at(p: tuple, anc: tuple) -> bool:
 # --------------------------------------------------------------------------
 # strategies
 
+def _factor_of(f, params: dict):
+    """The split factor: a number, or the name of a variable -- only when the program has a parameter of that name."""
+    fac = params.get('factor', 2)
+    if isinstance(fac, str) and fac not in {str(a.name) for a in f.ast.args}:
+        return 2
+    return fac
+
+
 def strategy_call(name: str, f, where, params: dict, rule=None):
     if name in RULES:
         return (rule or new_rule(name)).apply(f, where, repeat=params.get('repeat', 1))
@@ -123,7 +131,7 @@ def strategy_call(name: str, f, where, params: dict, rule=None):
     if name == 'unroll_for':
         return fn(f, where, params.get('times', 1), strategy=getattr(ForUnrollStrategy, params.get('strategy', 'PEEL')))
     if name == 'split':
-        return fn(f, params.get('factor', 2), where, strategy=getattr(SplitLoopStrategy, params.get('strategy', 'PEEL')))
+        return fn(f, _factor_of(f, params), where, strategy=getattr(SplitLoopStrategy, params.get('strategy', 'PEEL')))
     if name == 'unroll_while':
         return fn(f, where, params.get('times', 1))
     if name == 'inline':
@@ -136,13 +144,13 @@ def strategy_call(name: str, f, where, params: dict, rule=None):
     return fn(f, where)
 
 
-def listing_kwargs(name: str, params: dict) -> dict:
+def listing_kwargs(name: str, params: dict, f=None) -> dict:
     from fpy2.transform import ForUnrollStrategy, SplitLoopStrategy
     from fpy2.ast.fpyast import Integer
     if name == 'unroll_for':
         return {'times': params.get('times', 1), 'strategy': getattr(ForUnrollStrategy, params.get('strategy', 'PEEL'))}
     if name == 'split':
-        fac = params.get('factor', 2)
+        fac = _factor_of(f, params) if f is not None else params.get('factor', 2)
         if isinstance(fac, str):
             from fpy2.ast.fpyast import NamedId, Var
             fac_e = Var(NamedId(fac), None)       # a variable factor: the strategy emits a runtime `assert factor >= 1`
@@ -165,7 +173,7 @@ def list_sites(name: str, f, params: dict, within=None):
         lhs, _ = ns()['rules']()[name[3:]]
         return find_all(lhs, f, within), []
     from fpy2 import strategies as S
-    kw = listing_kwargs(name, params)
+    kw = listing_kwargs(name, params, f)
     try:
         return S.sites(getattr(S, name), f, within, **kw), S.refusals(getattr(S, name), f, within, **kw)
     except TypeError:
